@@ -13,8 +13,9 @@ including evaluation points exactly on epoch boundaries
 Proved: cdf of the code chain = cdf of the labelled chain (lump_cdf + bridges, one and two loci);
 cdf in [0,1] and non-decreasing along any extension of the factor list (from the four laws); the
 sorted sweep and `_update` are direct evaluation, also exactly on epoch boundaries; the bisection
-returns m with |F m - q| <= precision. Partial: integral of 1-cdf = mean (analysis), pdf (numerical
-differentiation), PT2.
+returns m with |F m - q| <= precision. For the real matrix exponential the mean over a further piece
+of time is the integral of 1 - cdf (mean_increment_eq_integral). Partial: pdf (numerical
+differentiation in the code), PT2.
 
 This file restates the theorems the property rests on (full statements; proofs are in PGProofs/).
 Generated once by harness/mkprops.py from harness/props_table.py + PGProperties/extra/C03.lean.in; committed as source.
